@@ -7,7 +7,8 @@ CONSTANTS
   MaxChunks = 2
   NVals = {3}
   Damaging = TRUE
+  Cards = {}
   EmitMode = "all"
 VIEW View
-INVARIANTS TypeOK RanksOK IndexOK Stable DamageDetected EmitState
+INVARIANTS TypeOK RanksOK IndexOK Stable WideOK DamageDetected EmitState
 CHECK_DEADLOCK FALSE
